@@ -101,6 +101,8 @@ See also: fixed, guarded
         else:
             v = self + Rational._dpr  # add 1/2 of lsd for rounding
             v = v.numerator * Rational._dps // v.denominator
+        if v < 0:   # format the magnitude; floor division would borrow from the integer part
+            return '-' + Rational._dfmt % ((-v) // Rational._dps, (-v) % Rational._dps)
         return Rational._dfmt % (v // Rational._dps, v % Rational._dps)
 
     def __repr__(self): # pragma: no cover
